@@ -20,6 +20,8 @@ Inv_C17 == C17_KeeperRate(w)
 Inv_C18 == C18_Conserved(w)
 Inv_C20 == C20_InRange(w)
 Act_C01 == [][IsStep => C01_Step(w, ev', w', g)]_vars
+\* C01 without the ghost-dependent dust bound (seeded exploration starts with fresh ghosts)
+Act_C01s == [][IsStep => (C01_WithdrawSucceeds(w, ev') /\ C01_PaysExactly(w, ev', w') /\ C01_ReleaseCovered(w, ev', w') /\ C01_OrderIndependent(w, ev', w'))]_vars
 Act_C02 == [][IsStep => C02_Step(w, ev', w')]_vars
 Act_C03 == [][IsStep => C03_Step(w, ev', w', obs)]_vars
 Act_C04 == [][IsStep => C04_Step(w, ev', w', obs, obs')]_vars
